@@ -774,7 +774,14 @@ impl Gen {
         } else {
             self.time()
         };
-        EvSpec { id: self.rng.bytes32(), pk, kind: 5, at, tags, content: vec![] }
+        let id = self.rng.bytes32();
+        if self.rng.chance(1, 25) {
+            // a request that names itself (possible only with a forged id, which the store does not
+            // verify): a target that cannot be meant - ignored, or the request refused
+            let pos = self.rng.usize(tags.len() + 1);
+            tags.insert(pos, vec!["e".into(), hex(&id)]);
+        }
+        EvSpec { id, pk, kind: 5, at, tags, content: vec![] }
     }
 
     pub fn query(&mut self) -> QuerySpec {
